@@ -350,6 +350,11 @@ class Interp:
                     v.fget.cls = cv
                 if v.cached and v.attrname is None:
                     v.attrname = k
+        custom = [k for k in ("__eq__", "__ne__", "__hash__") if k in cenv.vars]
+        if custom:
+            # objects are modelled with identity equality and identity hashing (dict keys, `==`, `in`,
+            # graph nodes); a class that defines its own is outside that model
+            raise Unsupported(f"class {node.name} defines {', '.join(custom)}: pyvc models objects with identity equality and hashing only")
         cv.tag = len(self.class_tags) + 1
         self.class_tags[qual] = cv.tag
         self.classes[qual] = cv
@@ -493,8 +498,21 @@ class Interp:
                 self.delitem(obj, idx)
             elif isinstance(tgt, ast.Name):
                 env.vars.pop(tgt.id, None)
+            elif isinstance(tgt, ast.Attribute):
+                self.delattr(self.eval(tgt.value, env), tgt.attr)
             else:
                 raise Unsupported("del target")
+
+    def delattr(self, obj, name):
+        if not isinstance(name, str):
+            raise PyRaise(ExcValue("TypeError", ("attribute name must be string",)))
+        if isinstance(obj, LocalObj):
+            if name in obj.attrs:
+                cur().effects.append(("attr-write", obj.ident, name))
+                del obj.attrs[name]
+                return
+            raise PyRaise(ExcValue("AttributeError", (f"{obj.cls.name} object has no attribute {name}",)))
+        raise Unsupported(f"attribute deletion on {type(obj).__name__}")
 
     def s_For(self, node, env):
         it = self.eval(node.iter, env)
@@ -1042,6 +1060,10 @@ class Interp:
         if hasattr(obj, "pyvc_setitem"):
             return obj.pyvc_setitem(self, idx, v)
         if isinstance(obj, Arr):
+            if idx is Ellipsis:
+                if obj.is_scalar:
+                    raise Unsupported("x[...] = v on a scalar value")
+                return A.setitem_slice(obj, None, None, v)  # whole-array overwrite in place
             if isinstance(idx, slice):
                 return A.setitem_slice(obj, idx.start, idx.stop, v)
             if isinstance(idx, (list, A.SIntList)):
@@ -1365,6 +1387,8 @@ class Interp:
                 seq.desc = f"{seq.desc}+[item]"
 
             return Builtin("sseq.append", append)
+        if obj is None and not name.startswith("__"):
+            raise PyRaise(ExcValue("AttributeError", (f"'NoneType' object has no attribute '{name}'",)))
         raise Unsupported(f"attribute {name} of {type(obj).__name__}")
 
     def bind(self, v, obj):
@@ -1415,6 +1439,21 @@ class Interp:
             from .libmodels import casadi_model
 
             return casadi_model.arr_method(self, a, name)
+        if name == "ndim" and a.dialect == "np":
+            return 1 if a.kind == "a1" else 0
+        if name == "ndim" and a.dialect == "abs" and a.kind == "vec":
+            # a value of the engine in use: a NumPy array (ndim 1) or a CasADi matrix (no such attribute)
+            if cur().decide(T.var("engine_values_are_numpy_arrays", T.BOOL), "ndim of an engine value"):
+                return 1
+            raise PyRaise(ExcValue("AttributeError", (name,)))
+        if name == "ndim" and a.dialect == "abs" and a.kind == "sc":
+            # a scalar-like engine value: a (1,) NumPy array, a 0-d NumPy value, a python number or a 1x1 CasADi matrix
+            if cur().decide(T.var("engine_values_are_numpy_arrays", T.BOOL), "ndim of an engine value"):
+                if cur().decide(T.eq(A.sct_of(a), 1), "scalar-like value is a (1,) array"):
+                    return 1
+                if cur().decide(T.fresh("scalar_is_numpy_0d", T.BOOL), "0-d value is a NumPy scalar (else a python number)"):
+                    return 0
+            raise PyRaise(ExcValue("AttributeError", (name,)))
         raise PyRaise(ExcValue("AttributeError", (name,))) if name not in ("size", "ndim") else Unsupported(name)
 
     def native_method(self, obj, name):
@@ -1736,6 +1775,10 @@ class Interp:
         @reg("isinstance")
         def _isinstance(it, a, k):
             return it.isinstance(a[0], a[1])
+
+        @reg("delattr")
+        def _delattr(it, a, k):
+            return it.delattr(a[0], a[1])
 
         @reg("hasattr")
         def _hasattr(it, a, k):
